@@ -86,6 +86,12 @@ def gen_container(tier, seed):
         for bad in ("rebin_unsorted", "rebin_unsorted_tail", "set_bins_short", "set_bins_long", "set_bins_2d", "fill_2d", "data_setter"):
             yield {"kind": "hist", "used": used, "call": bad}
         yield {"kind": "indexed", "used": used, "call": "data_setter_2d"}
+    if tier == "thorough":          # two rejected calls in a row: the first rejection must not prepare the ground for the second one to get through or to corrupt the object
+        names = [b for b in CONTAINER_BAD if b != "duplicate_name"]
+        for kind in ("indexed", "xy", "hist"):
+            for b1 in names:
+                for b2 in names:
+                    yield {"kind": kind, "used": True, "call": b1, "then": b2}
 
 
 EXTRA_BAD = {
@@ -120,6 +126,16 @@ def container(inp):
     if after != before:
         diff = [k for k in before if before[k] != after.get(k)]
         return {"got": {k: after.get(k) for k in diff}, "expected": {k: before[k] for k in diff}, "witness_class": f"changed:{inp['kind']}:{inp['call']}"}
+    if inp.get("then"):
+        try:
+            CONTAINER_BAD[inp["then"]](c, add, addm)
+            return {"got": "accepted", "expected": "exception", "witness_class": "accepted-after-a-rejected-call:" + inp["then"]}
+        except Exception:
+            pass
+        after = snap_container(c)
+        if after != before:
+            diff = [k for k in before if before[k] != after.get(k)]
+            return {"got": {k: after.get(k) for k in diff}, "expected": {k: before[k] for k in diff}, "witness_class": f"changed-after-two-rejected-calls:{inp['kind']}:{inp['then']}"}
     # and the object is still fully usable
     try:
         add(0.3, name="afterwards")
